@@ -171,7 +171,7 @@ def label_judge(case):
     r = float.fromhex(case["ratio"])
     large = case["large"]
     contrast = _lib()
-    want = ow.level(r, large)
+    want = ow.level(r, bool(large))
     try:
         got = contrast.get_contrast_level(r, large)
     except Exception as e:
@@ -197,7 +197,7 @@ def label_judge(case):
             # one list mixing this text size, the other one and a 2-element entry (= normal size): each status is the label
             # of the stubbed ratio AT THAT ENTRY'S size
             out = make_readable_bulk([(t, b, large), (t, b, not large), (t, b)])
-            wants = [_WANT_LABEL[ow.level(r, lg)].lower() for lg in (large, not large, False)]
+            wants = [_WANT_LABEL[ow.level(r, bool(lg))].lower() for lg in (large, not large, False)]
             if len(out) != 3 or [o[1] for o in out] != wants:
                 raise Violation("label-bulk", f"bulk statuses at ratio {r!r} for sizes (large={large}, large={not large}, 2-element entry) = {out!r}, expected {wants!r}")
         finally:
@@ -231,6 +231,11 @@ def _label_cases(tier):
         for large in (False, True):
             t, b = pairs[i % len(pairs)]
             cases.append({"ratio": float(v).hex(), "large": large, "t": list(t), "b": list(b)})
+    # the flag is used for its truth value: 1 / 0 must behave like True / False (thresholds +- 1 ulp only)
+    for t_ in (3.0, 4.5, 7.0):
+        for v in (t_, math.nextafter(t_, -math.inf), math.nextafter(t_, math.inf)):
+            for large in (1, 0):
+                cases.append({"ratio": float(v).hex(), "large": large, "t": [0, 0, 0], "b": [255, 255, 255]})
     return cases
 
 
